@@ -82,9 +82,27 @@ Checks(r) ==
                    /\ gok => \A f \in 1..Len(r.fpd) :
                                f <= Len(g) => (r.fpd[f].res = "ok" /\ r.fpd[f].data = GroupBytes(r, g, f))]
 
-Why(r) == {k \in DOMAIN Checks(r) : ~Checks(r)[k]}
+(* "helper_big": one frame of frame_len bytes holding B(i) = i % 251 + 1 at   *)
+(* 0-based position i; fragment lengths run-length coded as <<count, len>>;  *)
+(* probes = <<position, byte found in the concatenated fragments or -1>>.    *)
+BigChecks(r) ==
+  LET total == Sum([k \in 1..Len(r.runs) |-> r.runs[k][1] * r.runs[k][2]])
+  IN [ran     |-> r.res = "ok",
+      even    |-> \A k \in 1..Len(r.runs) : r.runs[k][2] % 2 = 0,
+      total   |-> r.total = total,
+      bot     |-> r.bot = <<0>>,
+      content |-> /\ total >= r.frame_len
+                  /\ \E k \in 1..Len(r.probes) : r.probes[k][1] = r.frame_len - 1
+                  /\ \A k \in 1..Len(r.probes) :
+                        LET p == r.probes[k][1]
+                            b == r.probes[k][2]
+                        IN IF p < r.frame_len THEN b = (p % 251) + 1
+                           ELSE IF p < total THEN b = 0 ELSE b = -1]
 
-TCase == /\ l <= Len(Rec) /\ R.ev \in {"helper", "transcode"}
+Why(r) == IF r.ev = "helper_big" THEN {k \in DOMAIN BigChecks(r) : ~BigChecks(r)[k]}
+          ELSE {k \in DOMAIN Checks(r) : ~Checks(r)[k]}
+
+TCase == /\ l <= Len(Rec) /\ R.ev \in {"helper", "helper_big", "transcode"}
          /\ IF Why(R) = {} THEN TRUE ELSE PrintT(<<"FAILED", l, ToJson(Why(R))>>)
          /\ l' = l + 1
 
